@@ -126,6 +126,21 @@ Whitespace is skipped between tokens.  Fuel-based, structurally recursive. -/
 def isIdStart (c : Char) : Bool := c.isAlpha || c = '_' || c = '$'
 def isIdChar (c : Char) : Bool := c.isAlphanum || c = '_' || c = '$'
 
+/-- ECMAScript reserved words (+ strict-mode / module-code reserved identifiers) that are legal Rust identifiers
+    or can arise from them -/
+def jsReserved : List Str :=
+  [cl!"break", cl!"case", cl!"catch", cl!"class", cl!"const", cl!"continue", cl!"debugger", cl!"default", cl!"delete",
+   cl!"do", cl!"else", cl!"enum", cl!"export", cl!"extends", cl!"false", cl!"finally", cl!"for", cl!"function", cl!"if",
+   cl!"import", cl!"in", cl!"instanceof", cl!"new", cl!"null", cl!"return", cl!"super", cl!"switch", cl!"this", cl!"throw",
+   cl!"true", cl!"try", cl!"typeof", cl!"var", cl!"void", cl!"while", cl!"with", cl!"yield", cl!"let", cl!"static",
+   cl!"implements", cl!"interface", cl!"package", cl!"private", cl!"protected", cl!"public", cl!"await", cl!"arguments", cl!"eval"]
+
+/-- a legal TypeScript binding identifier (ASCII letters, digits, `_`, `$`; not starting with a digit; not reserved) -/
+def isTsIdentName (s : Str) : Bool :=
+  match s with
+  | [] => false
+  | c :: cs => isIdStart c && cs.all isIdChar && !jsReserved.contains s
+
 def skipWs : Str → Str
   | ' ' :: s => skipWs s
   | s => s
